@@ -1,3 +1,2 @@
-impl std::fmt::Display for NodeIdx { fn fmt(&self, _f: &mut std::fmt::Formatter) -> std::fmt::Result { Ok(()) } }
-impl std::fmt::Display for VehicleIdx { fn fmt(&self, _f: &mut std::fmt::Formatter) -> std::fmt::Result { Ok(()) } }
+//@include env/display_idx.rs
 impl std::fmt::Display for Node { fn fmt(&self, _f: &mut std::fmt::Formatter) -> std::fmt::Result { Ok(()) } }
